@@ -247,7 +247,7 @@ func ruleVerdictStatusAfterUpdate(w *World, r *Run, rule string) {
 		var upd ssa.Instruction
 		for _, b := range fn.Blocks {
 			for _, in := range b.Instrs {
-				if c, ok := in.(ssa.CallInstruction); ok && c.Common().IsInvoke() && c.Common().Method.FullName() == cFeederUpdate {
+				if c, ok := in.(ssa.CallInstruction); ok && c.Common().IsInvoke() && ssaCallName(c.Common()) == cFeederUpdate {
 					upd = in
 				}
 			}
